@@ -4,6 +4,8 @@ Workload: one or two @state_trigger functions (or one task.wait_until call made 
 over all combinations of state_check_now in {unset, False, True} x state_hold in {None, 0, S} x
 state_hold_false in {None, 0, H}, both initial truths; timed histories on a 0.25 s grid of relevant
 flips, unwatched-entity changes and attribute-only updates, with bursts on one entity at one instant.
+Expressions may read the previous value (NAME.old) and, with watch=[...], entities whose changes cause no
+evaluation (and the list may name entities the expression does not read).
 S and H are off the grid so no tie decides an outcome.
 
 Oracle: sim.holdmodel.timeline (automaton written from the docs); expected fires are instants with
@@ -33,6 +35,11 @@ ASSUMPTIONS = [
     "so no oracle verdict depends on a tie; stalls are < 50 ms",
     "bursts at one instant touch a single entity (bursts across different never-notified variables are C04's finding)",
     "mixing any-change names with state_hold_false is not generated (undefined by docs)",
+    "watch= is only combined with expressions over entity values (no .old: names that are not listed in watch= are "
+    "C04's recorded finding C04-B1) and only entities that exist for the whole run; an entity the expression reads "
+    "but watch= does not list is read when the expression is evaluated, its own changes cause no evaluation and "
+    "touch no timer (property: 'changes that do not cause an evaluation (unwatched entities ...) affect none of "
+    "these timers')",
     "hold timers are measured on the monotonic clock; wall-clock drift is irrelevant here",
 ]
 TIERS = {
@@ -41,7 +48,8 @@ TIERS = {
 }
 REACH_PROBES = ["hold_armed", "hold_cancelled_by_false", "hold_expired_with_second_true", "nonevaluating_during_hold",
                 "hold_false_too_soon", "hold_false_satisfied", "initial_check_fired", "attr_only_during_hold",
-                "wait_until_form"]
+                "wait_until_form", "expression_reads_unwatched_entity", "watch_lists_entity_not_in_expression",
+                "expression_reads_old", "unwatched_read_changed_during_hold", "attr_only_during_hold_old_expr"]
 SHRINK_LISTS = [["ops"], ["spec", "funcs"]]
 
 HOLDS = [0.6, 1.1, 2.35]
@@ -52,6 +60,13 @@ EXPRS = [
     ["int", ["v", "pyscript.v"], ">=", 1],
     ["or", ["cmp", ["v", "pyscript.v"], "==", "1"], ["cmp", ["v", "pyscript.w"], "==", "1"]],
     ["and", ["cmp", ["v", "pyscript.v"], "!=", "0"], ["cmp", ["v", "pyscript.w"], "!=", "1"]],
+]
+# expressions that look at the previous value: an attribute-only update of pyscript.v (old value == new value) is
+# still no evaluation for them
+OLD_EXPRS = [
+    ["and", ["cmp", ["v", "pyscript.v"], "==", "1"], ["cmp", ["old", "pyscript.v"], "!=", "1"]],
+    ["cmp", ["old", "pyscript.v"], "==", "1"],
+    ["or", ["cmp", ["old", "pyscript.v"], "==", "0"], ["cmp", ["v", "pyscript.w"], "==", "1"]],
 ]
 GRID = 0.25
 T_FIRST = 1.0
@@ -72,6 +87,21 @@ def gen(rng: random.Random, tier: str) -> dict:
             "hold": rng.choice([None, None, 0, rng.choice(HOLDS), rng.choice(HOLDS)]),
             "hold_false": rng.choice([None, None, 0, rng.choice(HOLD_FALSES), rng.choice(HOLD_FALSES)]),
         })
+        roll = rng.random()
+        if roll < 0.2:
+            funcs[-1]["expr"] = rng.choice(OLD_EXPRS)
+        elif roll < 0.45 and form == "decorator":
+            # watch=: only the listed entities cause evaluations; the expression may read entities that are not
+            # listed (their changes touch no timer) and the list may name entities the expression does not read
+            if rng.random() < 0.6:
+                funcs[-1]["expr"] = rng.choice(EXPRS[3:])  # reads pyscript.v and pyscript.w
+            if rng.random() < 0.5:
+                funcs[-1]["hold"] = rng.choice(HOLDS)
+            ents = sorted({r[1] for r in X.refs(funcs[-1]["expr"])})
+            opts = [["pyscript.v"], ["pyscript.v", "pyscript.u"], ["pyscript.u", "pyscript.v", "pyscript.w"]]
+            if "pyscript.w" in ents:
+                opts += [["pyscript.w"], ["pyscript.v"], ["pyscript.v"]]
+            funcs[-1]["watch"] = rng.choice(opts)
     initial = {"pyscript.v": [rng.choice(["0", "1", "1", "2"]), {"a": 0}],
                "pyscript.w": [rng.choice(["0", "0", "1"]), {}],
                "pyscript.u": ["0", {}]}
@@ -79,9 +109,14 @@ def gen(rng: random.Random, tier: str) -> dict:
     k = 0
     if form == "wait_until":
         ops.append({"k": 0, "kind": "call"})
+    # an entity the expression reads without watching it changes more often (between two evaluations, during holds)
+    reads_unwatched = any(f.get("watch") is not None and "pyscript.w" not in f["watch"]
+                          and any(r[1] == "pyscript.w" for r in X.refs(f["expr"])) for f in funcs)
     for _ in range(rng.randint(3, TIERS[tier]["max_inst"])):
         k += rng.choice([1, 1, 2, 3, 4, 6, 10])
         roll = rng.random()
+        if reads_unwatched and roll < 0.3:
+            roll = 0.7  # pyscript.w
         if roll < 0.6:
             ent = "pyscript.v"
         elif roll < 0.75:
@@ -111,6 +146,8 @@ def _kw_src(func: dict) -> str:
         parts.append(f"state_hold={func['hold']}")
     if func["hold_false"] is not None:
         parts.append(f"state_hold_false={func['hold_false']}")
+    if func.get("watch") is not None:
+        parts.append(f"watch={list(func['watch'])!r}")
     return ", ".join(parts)
 
 
@@ -234,6 +271,16 @@ def oracle(w: World, scn: dict, info: dict):
     any_nontrivial = False
     for func in spec["funcs"]:
         watched = {r[1] for r in X.refs(func["expr"])}
+        if func.get("watch") is not None:
+            unread = set(func["watch"]) - watched
+            unwatched = watched - set(func["watch"])
+            watched = set(func["watch"])
+            if unwatched:
+                w.probe("expression_reads_unwatched_entity")
+            if unread:
+                w.probe("watch_lists_entity_not_in_expression")
+        if any(r[0] == "old" for r in X.refs(func["expr"])):
+            w.probe("expression_reads_old")
         check_now = func["check_now"]
         if spec["form"] == "wait_until":
             w.probe("wait_until_form")
@@ -360,6 +407,10 @@ def _probes(w, func, evals, nonevals, fires):
                     w.probe("nonevaluating_during_hold")
                     if ch["ent"] == "pyscript.v":
                         w.probe("attr_only_during_hold")
+                        if any(r[0] == "old" for r in X.refs(func["expr"])):
+                            w.probe("attr_only_during_hold_old_expr")
+                    elif func.get("watch") is not None and ch["ent"] in {r[1] for r in X.refs(func["expr"])}:
+                        w.probe("unwatched_read_changed_during_hold")
         trues = [e for e in evals if e["truth"]]
         falses = [e for e in evals if not e["truth"]]
         if any(0 < fl["t"] - tr["t"] < hold for tr in trues for fl in falses):
